@@ -19,7 +19,9 @@ def programs(ctx):
              {"kind": "enum", "name": "U2", "attrs": {}, "generics": [], "extra_derives": ["PartialEq", "Eq", "Hash", "PartialOrd", "Ord", "Clone", "Copy"], "variants": [{"name": "X", "shape": "unit", "fields": [], "attrs": {}},
                                                                                     {"name": "Y", "shape": "unit", "fields": [], "attrs": {}}]},
              {"kind": "struct", "name": "U3", "shape": "named", "attrs": {"export_to": "sub/"}, "generics": [{"name": "T"}],
-              "fields": [{"name": "t", "ty": {"k": "param", "n": "T"}, "attrs": {}}]}]
+              "fields": [{"name": "t", "ty": {"k": "param", "n": "T"}, "attrs": {}}]},
+             # a user type that has dependencies of its own (what a library type forwards through visit_dependencies)
+             {"kind": "struct", "name": "U4", "shape": "named", "attrs": {}, "generics": [], "fields": [{"name": "u", "ty": N("U1"), "attrs": {}}, {"name": "v", "ty": VEC(N("U2")), "attrs": {}}]}]
     imap = {i["name"]: i for i in items}
     leaves = [N("U1"), N("U2"), N("U3", N("U1")), N("U3", P("bool"))]
     probes = []
@@ -72,6 +74,12 @@ def programs(ctx):
     add({"k": "slice", "t": N("U1")}, 0)
     add({"k": "result", "a": N("U1"), "b": P("String")}, 3)
     add({"k": "result", "a": OPT(P("u64")), "b": N("U2")}, 3)
+    # every library constructor around a user type WITH dependencies, in every argument position
+    for t4 in ({"k": "result", "a": P("u8"), "b": N("U4")}, {"k": "result", "a": N("U4"), "b": P("String")}, VEC({"k": "result", "a": N("U1"), "b": N("U4")}),
+               OPT(N("U4")), VEC(N("U4")), {"k": "tuple", "ts": [N("U4"), N("U1")]}, {"k": "tuple", "ts": [P("u8"), N("U4")]}, {"k": "arr", "t": N("U4"), "n": 2},
+               W("box", N("U4")), W("arc", N("U4")), {"k": "map", "a": P("String"), "b": N("U4"), "impl": "HashMap"}, {"k": "map", "a": P("u8"), "b": VEC(N("U4")), "impl": "BTreeMap"},
+               {"k": "set", "t": W("box", N("U2")), "impl": "BTreeSet"}, OPT({"k": "result", "a": VEC(N("U4")), "b": OPT(N("U4"))})):
+        add(t4, 1)
     for _ in range(60 if ctx.quick else 600):
         add(g.ty(3, leaves), 2)
     for pr in probes:   # unsized / non-serializable shapes: no values
@@ -142,7 +150,7 @@ def run(ctx):
         ctx.broken.append(f"compiled correspondence (library types): {len(dis)} disagreements; first: {json.dumps(t)[:200]} field {k}: impl={json.dumps(rv)[:300]} model={json.dumps(mv)[:300]}")
     # oracle
     decls = [r["decl"]["ok"] for pr, r in zip(progs[0]["probes"], real[0]) if "decl" in r and "ok" in r["decl"]]
-    udecls = ["type U1 = { a: number, };", "type U2 = \"X\" | \"Y\";", "type U3<T> = { t: T, };"]
+    udecls = ["type U1 = { a: number, };", "type U2 = \"X\" | \"Y\";", "type U3<T> = { t: T, };", "type U4 = { u: U1, v: Array<U2>, };"]
     qs, meta = [], []
     for pi, prog in enumerate(progs):
         for pr, r in zip(prog["probes"], real[pi]):
@@ -204,6 +212,19 @@ def run(ctx):
             if dep_fail <= 3:
                 ctx.violation("a library type does not contribute exactly its (exportable) type arguments through visit_generics",
                               {"type": t}, {"visited": got, "arguments": want})
+    # ... and through visit_dependencies (the inline path) exactly the dependencies of those arguments
+    own = {"U1": set(), "U2": set(), "U4": {"U1", "U2"}}
+    for pr, r in zip(progs[0]["probes"], real[0]):
+        t = pr["ty"]
+        if t["k"] == "named" or '"id": "U3"' in json.dumps(t) or '"k": "tuple"' in json.dumps(t):
+            continue          # (tuples cannot be inlined: `inline()` panics, there is no inline path through them)
+        want = sorted(set().union(*[own[x] for x in arg_names(t)])) if arg_names(t) else []
+        got = sorted({d[0] for d in r.get("deps", [])})
+        if want != got:
+            dep_fail += 1
+            if dep_fail <= 6:
+                ctx.violation("a library type does not forward exactly the dependencies of its type arguments through visit_dependencies (the inline path)",
+                              {"type": t}, {"dependencies": got, "expected": want})
     n = sum(len(p["probes"]) for p in progs)
     ctx.stream("library types (compiled): name()/inline()/visit_generics vs model; serde_json output vs reported type", len(qs) + n, n,
                "every impl_primitives! row of std, arrays of length 0/1/2/32/33/64/65/100, tuples of arity 1..10, all 11 wrappers, maps over 6 key types x Hash/BTree, ranges, sets, "
